@@ -126,8 +126,9 @@ Result update_score(const std::vector<Result>& results, uint32_t idx)
         if (results[index] == betterResult) return betterResult;
         isUnknown |= (results[index] == kUNKNOWN);
 
-        // double push if pawn is on RANK_2
-        if (rank(wPawn) == RANK_2)
+        // double push if pawn is on RANK_2 and the square in front is empty
+        // (a pawn cannot jump over a king)
+        if (rank(wPawn) == RANK_2 && nextPawnSq != wKing && nextPawnSq != bKing)
         {
             nextPawnSq = make_square(RANK_4, file(wPawn));
             uint32_t index = getIndex(BLACK, wKing, nextPawnSq, bKing);
